@@ -497,7 +497,7 @@ pub fn run(tier: Tier) -> i32 {
     ctx.assume("reference matcher: exact equality / prefix test for '/x/*tail' (refmodel::routes), written from the property statement");
     ctx.assume("patterns are limited to the kinds the statement names (exact, wildcard tail, rpc service); ':param' patterns are not generated");
     ctx.run_part(Tables, tier.pick(40_000, 1_500_000));
-    ctx.run_part(OverTheWire, tier.pick(1_500, 40_000));
+    ctx.run_part(OverTheWire, tier.pick(4_000, 100_000));
     if tier == Tier::Thorough {
         crate::fuzzrun::campaign(&mut ctx, "router", 1_000_000);
     }
